@@ -119,7 +119,11 @@ class C09(Prop):
                    "`answered` = the reply is transmitted or waiting in the write queue when the input ends"]
 
     def generate(self, rng, tier):
-        cap = PI.captured()
+        cap = dict(PI.captured())
+        # thermostat-parameters responses: what they decode to depends on the device they are handed to (the number of thermostats it
+        # knows), which no frame has while it is still in the reader
+        cap["thermo3"] = (0xDC, PI.payload("responses/thermostat_parameters.json", "3_thermostats_connected"))
+        cap["thermo0"] = (0xDC, PI.payload("responses/thermostat_parameters.json", "no_thermostats_connected"))
         names = list(cap)
         cases = []
         for _ in range(500 if tier == "quick" else 6000):
